@@ -39,7 +39,7 @@ def run_torch(env, prog):
             elif k == "reshape": r = a.reshape(tuple(ins["shape"]))
             elif k == "narrow":
                 n = a.tensor.shape[ins["axis"]]
-                r = a.split([ins["start"], ins["len"], n - ins["start"] - ins["len"]], ins["axis"])[1]
+                r = a.split(ins["split"], ins["axis"])[ins["piece"]] if "split" in ins else a.split([ins["start"], ins["len"], n - ins["start"] - ins["len"]], ins["axis"])[1]
             elif k == "cat": r = MaskedTorch.cat([arg(i) for i in ins["rs"]], dim=ins["dim"])
             elif k == "stack": r = MaskedTorch.stack([regs[i] for i in ins["rs"]], dim=ins["dim"])
             elif k == "bin":
@@ -109,7 +109,7 @@ def run_tf(env, prog):
             elif k == "reshape": r = a.reshape(tuple(ins["shape"]))
             elif k == "narrow":
                 n = a.tensor.shape[ins["axis"]]
-                r = a.split([ins["start"], ins["len"], n - ins["start"] - ins["len"]], ins["axis"])[1]
+                r = a.split(ins["split"], ins["axis"])[ins["piece"]] if "split" in ins else a.split([ins["start"], ins["len"], n - ins["start"] - ins["len"]], ins["axis"])[1]
             elif k == "cat": r = MaskedTensorflow.concat([arg(i) for i in ins["rs"]], axis=ins["dim"])
             elif k == "stack": r = MaskedTensorflow.stack([regs[i] for i in ins["rs"]], axis=ins["dim"])
             elif k == "bin":
